@@ -220,7 +220,7 @@ theorem fieldLoop_cons (m f : Nat) (n : Bytes) (t : Ty) (fs : List (Bytes × Ty)
 /-! ### enums -/
 
 theorem visitImpl_enum (m : Nat) (u : UInt8) (n : Bytes) (ens : List (Bytes × Bytes)) (sz : Nat)
-    (hu : arithSize u = some sz) (hn : NameOk n = true) (hens : EnumsOk ens = true) (st : σ) (input : Bytes) :
+    (hu : arithSize u = some sz) (hn : NameOk n = true) (hens : EnumsOk ens = true) (hnb : u ≠ 121) (st : σ) (input : Bytes) :
     visitImpl v full (m + 1) (tag (.enum u n ens)) st input =
       match readU sz input with
       | .error err => .error err
@@ -244,7 +244,7 @@ theorem visitImpl_enum (m : Nat) (u : UInt8) (n : Bytes) (ens : List (Bytes × B
       simp [removePrefixBefore, findPos_append n cQuote hq]
     rw [this]
     dsimp only
-    have e := enum_lookup _ (integerToHex_plain u raw) ens hens
+    have e := enum_lookup _ (integerToHex_plain u raw hnb) ens hens
     generalize findSub (cQuote :: tagEnums ens) ([cQuote] ++ integerToHex u raw ++ [cBacktick]) = r at e ⊢
     cases r with
     | none => dsimp only at e ⊢; rw [← e]; rfl
